@@ -96,7 +96,7 @@ Proof. exact update_invalid_keeps. Qed.
    - the damped formula is the full projection, and the repaired exponent handling (MeanField.rescale) accepts it;
    - whenever the projection is accepted (whichever variant [cand] runs), the global approximation becomes the
      fitted distribution *)
-Theorem C18_update_per_variable_delta_one_refuted :
+Theorem C18_update_per_variable_delta_one_legacy_refuted :
   exists (st : state N2) i dl v nw,
     i < length st /\ In v (keys N2 (own N2 i st)) /\ is_pervar dl = true
     /\ delta_at dl v = Q2Qc 1
@@ -104,6 +104,16 @@ Theorem C18_update_per_variable_delta_one_refuted :
     /\ cand_valid N2 n_valid (cand_v N2 n_add n_opp n_scale false dl (n_cavity i st) (own N2 i st) v nw) = false
     /\ cand_valid N2 n_valid (cand_v N2 n_add n_opp n_scale true dl (n_cavity i st) (own N2 i st) v nw) = true.
 Proof. exact per_variable_delta_one_refuted. Qed.
+(* the code as it now is (eae3ef1): [cand] accepts a per-variable delta of exactly 1 and computes new / cavity *)
+Theorem C18_update_per_variable_delta_one_current :
+  forall (G : Type) (gadd : G -> G -> G) (gopp : G -> G) (gzero : G) (gscale : Qc -> G -> G) (gvalid : G -> bool),
+  group_laws G gadd gopp gzero -> module_laws G gadd gscale ->
+  forall (ds : list (var * Qc)) (cavd last : mf G) (v : var) (nw l : G),
+    get G v last = Some l -> qlookup v ds = Q2Qc 1 ->
+    gvalid (full_cand G gadd gopp nw (get G v cavd)) = true ->
+    cand G gadd gopp gscale (DPerVar ds) cavd last v nw = (full_cand G gadd gopp nw (get G v cavd), true)
+    /\ cand_valid G gvalid (cand G gadd gopp gscale (DPerVar ds) cavd last v nw) = true.
+Proof. exact pervar_delta_one_current. Qed.
 Theorem C18_update_per_variable_delta_one_fixed :
   forall (G : Type) (gadd : G -> G -> G) (gopp : G -> G) (gzero : G) (gscale : Qc -> G -> G) (gvalid : G -> bool),
   group_laws G gadd gopp gzero -> module_laws G gadd gscale ->
@@ -181,18 +191,18 @@ Theorem C18_init_cavity_fixed :
     get G v (cavity G gadd i (init_state G gscale false true fs pf priors dflt)) = Some (prior_of G priors v dflt).
 Proof. exact init_cavity_fixed. Qed.
 (* the code as it stands (counting occurrences): refuted in general ... *)
-Theorem C18_init_cavity_refuted :
+Theorem C18_init_cavity_legacy_refuted :
   exists fs pf priors i v,
     pf_ok fs pf = true /\ i < length (graph_factors true fs pf) /\ In v (nth i (graph_factors true fs pf) [])
     /\ get N2 v (n_cavity i (init_state N2 n_scale true true fs pf priors n_zero)) <> Some (prior_of N2 priors v n_zero).
 Proof. exact init_cavity_refuted. Qed.
-Theorem C18_init_cavity_without_prior_factors_refuted :
+Theorem C18_init_cavity_without_prior_factors_legacy_refuted :
   exists fs priors i v,
     i < length (graph_factors false fs []) /\ In v (nth i (graph_factors false fs []) [])
     /\ get N2 v (n_cavity i (init_state N2 n_scale true false fs [] priors n_zero)) <> Some (prior_of N2 priors v n_zero).
 Proof. exact init_cavity_without_prior_factors_refuted. Qed.
 (* ... and proved for a variable no factor lists twice that has a prior factor or two owners *)
-Theorem C18_init_cavity_partial :
+Theorem C18_init_cavity_legacy_partial :
   forall (G : Type) (gadd : G -> G -> G) (gopp : G -> G) (gzero : G) (gscale : Qc -> G -> G),
   group_laws G gadd gopp gzero -> module_laws G gadd gscale ->
   forall (include : bool) (fs : list (list var)) (pf : list var) (priors : mf G) (dflt : G) (i : nat) (v : var),
@@ -227,6 +237,15 @@ Theorem C18_subset_split :
   group_laws G gadd gopp gzero -> module_laws G gadd gscale ->
   forall (s : Qc) (o c : G), gadd (gscale s o) (gadd c (gscale (Q2Qc 1 - s)%Qc o)) = gadd o c.
 Proof. exact rescale_split. Qed.
+
+(* the code as it now is (1d542b0): a rescaled variable that no other factor holds gets the held-back part
+   own^(1-s) as its cavity (it used to raise KeyError), and a factor without plated variables is not rescaled *)
+Theorem C18_subset_single_owner_current :
+  forall (frac : Q) (scalars : list var) (i : nat) (sst : state N2) (v : var) (o : N2),
+    get N2 v (own N2 i sst) = Some o -> get N2 v (n_cavity i sst) = None ->
+    qclt (scale_in frac scalars (own N2 i sst) v) (Q2Qc 1) = true ->
+    get N2 v (sub_cavity frac scalars i sst) = Some (sub_rest (scale_in frac scalars (own N2 i sst) v) o).
+Proof. exact sub_cavity_single_owner. Qed.
 
 (* EPOptimiser.run, tied to the scripted optimiser: a visit with delta >= 1 recorded as a success leaves the
    global approximation equal to the distribution the optimiser returned and records its result *)
@@ -300,12 +319,12 @@ Theorem C18_latest_result_fixed :
     match latest_successful G h with Some k => Some (h_token (nth k h d)) | None => None end.
 Proof. exact latest_result_last_spec. Qed.
 (* latest_result with [0] (the code as it stands): refuted, and proved when at most one success *)
-Theorem C18_latest_result_refuted :
+Theorem C18_latest_result_legacy_refuted :
   exists h : list (hentry N2),
     latest_result N2 true h <>
     match latest_successful N2 h with Some k => Some (h_token (nth k h (h_ok 0))) | None => None end.
 Proof. exact latest_result_refuted. Qed.
-Theorem C18_latest_result_partial :
+Theorem C18_latest_result_legacy_partial :
   forall (G : Type) (h : list (hentry G)),
     length (filter h_success h) <= 1 -> latest_result G true h = latest_result G false h.
 Proof. exact latest_result_first_partial. Qed.
@@ -314,7 +333,7 @@ Print Assumptions C18_model_eq.
 Print Assumptions C18_update_exact.
 Print Assumptions C18_update_damped.
 Print Assumptions C18_init_cavity_fixed.
-Print Assumptions C18_init_cavity_refuted.
+Print Assumptions C18_init_cavity_legacy_refuted.
 Print Assumptions C18_run_chain.
 Print Assumptions C18_latest.
 Print Assumptions C18_stale_update_not_exact.
